@@ -64,6 +64,8 @@ func main() {
 		cmdCache(fs, os.Args[2:])
 	case "dcache":
 		cmdDcache(fs, os.Args[2:])
+	case "atxn":
+		cmdAtxn(fs, os.Args[2:])
 	case "probe":
 		cmdProbe(fs, os.Args[2:])
 	case "simpleconc":
